@@ -49,6 +49,10 @@ CHECKS = {
    text="Programs from spec/Gen.tla are compiled plain and with annotations at random positions (Comment around any node, Assert comments, Pragma, Nonce, subroutine names incl. identical names) with texts over the LitGen character classes incl. line breaks, quotes, '//' and ';' and texts > 256 characters; both TEAL texts are lexed in TLA+ (spec/TealLex.tla) and spec/Lex.tla requires equal statement streams up to a label bijection (no duplicate labels) and the documented Nonce push+pop.",
    note="annotation texts PyTeal refuses with a PyTeal error are not violations; two recorded findings (comment keeps a block / hides a store-load pair)",
    tech="TLA+ lexer specification (TLC): statement streams of annotated vs plain text compared modulo label renaming"),
+ "C14": dict(cat="model_checking", ref="5 C14",
+   text="For the C09 signature catalogue spec/CallGen.tla computes the ARC-4 client view of a call; the harness builds InnerTxnBuilder.ExecuteMethodCall with ABI-valued, pre-encoded, reference, transaction-dictionary and extra-field arguments; TLC runs the emitted TEAL on spec/AVM.tla and compares the submitted inner group (spec/Refine.tla, itxns) with the convention: preceding transactions, selector + argument list with tuple packing from the 15th, foreign arrays and index bytes; ill-typed arguments must be rejected at build.",
+   note="one recorded finding (no tuple packing beyond 15 arguments)",
+   tech="TLA+ calling-convention specification (TLC) as oracle for the inner transaction group built on the AVM spec"),
  "C16": dict(cat="model_checking", ref="5 C16",
    text="All 35 factor-count combinations of WideRatio are replayed into PyTeal; TLC runs the emitted TEAL on spec/AVM.tla against the big-number meaning of WideRatio in spec/PyTealSem.tla: on a scaled 4-bit-word machine over every factor tuple (small counts) and on the 64-bit machine over boundary values. Exact result or failure, compared by TLC per (program, context).",
    note="trusts BigNat.tla (self-tested against Python integers at setup), the mulw/divmodw/cover/uncover semantics of AVM.tla, soundness of the scaled machine for width-generic code",
